@@ -106,6 +106,7 @@ package queue
 //@ func (*Tagged).Push
 //@   before call (*Tagged).addFile assert queued-entry-is-fresh: arg1 != nil && arg1.orig == file && arg1.group == group && arg1.allocated == 0 && arg1.next == nil && arg1.prev == nil && fresh(arg1)
 //@   before call (*Tagged).addFile assert replaced-entry-is-unlinked: initer(called((*Tagged).removeFile)) ==> initer(called((*sortedFile).unlink)) && lastarg((*sortedFile).unlink, 0) == lastarg((*Tagged).removeFile, 1) && lastarg((*Tagged).removeFile, 1) == orig
+//@   loop 0 backedge assert every-file-with-a-tag-is-queued-afresh: lastret((*Tagged).getGroup, 0) != nil ==> called((*Tagged).addFile)
 //@   before call (*Tagged).removeFile assert replaces-the-entry-of-that-name: has(q.byFile, file.GetName()) && arg1 == q.byFile[file.GetName()]
 //@   modifies everything
 
@@ -120,6 +121,14 @@ package queue
 //@   on return assert fifo-is-oldest-first: list[i].orig.GetTime() != file.orig.GetTime() && order == sts.OrderFIFO ==> r0 == (list[i].orig.GetTime() > file.orig.GetTime())
 //@   on return assert lifo-is-newest-first: list[i].orig.GetTime() != file.orig.GetTime() && order != sts.OrderFIFO ==> r0 == (list[i].orig.GetTime() < file.orig.GetTime())
 //@   modifies nothing
+
+// a group takes the tag (priority, order, chunk size, last-file delay) that the tagger gives for the
+// group's name - the same answer the rest of the sender gets for tagger(grouper(file name))
+//@ func (*Tagged).getGroup
+//@   before call tagger assert tag-of-the-group-name: arg0 == groupName
+//@   on return assert new-group-is-linked-in: !old(has(q.byGroup, groupName)) && result != nil ==> called((*Tagged).addGroup) && lastarg((*Tagged).addGroup, 1) == result && called(tagger)
+//@   on return assert known-group-is-returned: old(has(q.byGroup, groupName)) ==> result == old(q.byGroup[groupName]) && !called(tagger)
+//@   modifies everything
 
 //@ func (*Tagged).removeFile
 //@   modifies entries(q.headFile), entries(q.byFile)
